@@ -245,10 +245,13 @@ func (b *build) prepare() error {
 	if err := addDir(filepath.Join(verif, "detsim"), filepath.Join(repo, "verifsim")); err != nil {
 		return err
 	}
-	for _, sub := range []string{"vfs", "simnet"} {
-		if _, err := os.Stat(filepath.Join(verif, "detsim", sub)); err == nil {
-			if err := addDir(filepath.Join(verif, "detsim", sub), filepath.Join(repo, "verifsim", sub)); err != nil {
-				return err
+	// every sub-directory of detsim is an overlay-only sub-package of verifsim (vfs, simnet, ...)
+	if subs, err := os.ReadDir(filepath.Join(verif, "detsim")); err == nil {
+		for _, e := range subs {
+			if e.IsDir() {
+				if err := addDir(filepath.Join(verif, "detsim", e.Name()), filepath.Join(repo, "verifsim", e.Name())); err != nil {
+					return err
+				}
 			}
 		}
 	}
